@@ -84,6 +84,32 @@ func runGoag(work string, s GenSpec) (res GenResult) {
 	return res
 }
 
+// runGoagDir runs the generator on a spec into an explicit output directory (C19 histories).
+func runGoagDir(work, outDir, specName string, spec []byte, client, noAPI bool) (res GenResult) {
+	goagMu.Lock()
+	defer goagMu.Unlock()
+	specDir := filepath.Join(work, "specs", specName)
+	os.MkdirAll(specDir, 0o755)
+	res.SpecPath = filepath.Join(specDir, "openapi.json")
+	os.WriteFile(res.SpecPath, spec, 0o644)
+	res.Dir = outDir
+	defer func() {
+		if r := recover(); r != nil {
+			res.Outcome = "panic"
+			res.Detail = fmt.Sprint(r) + "\n" + string(debug.Stack())
+		}
+	}()
+	g := goag.Generator{GenClient: client, GenAPIHandler: !noAPI, DoNotEdit: true}
+	err := g.GenerateFile(outDir, "p", res.SpecPath, "", filepath.Join(specDir, ".goag.yaml"), "")
+	if err != nil {
+		res.Outcome = "error"
+		res.Detail = err.Error()
+		return res
+	}
+	res.Outcome = "ok"
+	return res
+}
+
 // writeRegistry writes <dir>/reg/reg.go registering the package with the rt driver.
 func writeRegistry(modName string, r GenResult) error {
 	fset := token.NewFileSet()
